@@ -234,6 +234,9 @@ def object_case(ctx, kind, v, dt, sm, band, cls_name):
     # ---- C07.d bandwidth
     for ratio in (rng.choice([0.3, 0.5, 0.707, 0.9, 0.999]), 0.707, 1.0):
         bw_case(ctx, asig, s_obj, smv, ratio, inputs)
+    # the bandwidth functions only read the smoothed spectrum: the object's (cached) spectrum must be bit-for-bit what it was
+    ctx.oracle('C07 the bandwidth functions leave the object\'s smoothed spectrum unchanged', np.array_equal(np.asarray(asig.smooth_fa_spectrum), s_obj),
+               inputs, detail={'max_dev': float(np.max(np.abs(np.asarray(asig.smooth_fa_spectrum) - s_obj))) if len(s_obj) else 0.0})
     for ratio in (15, 2.0):
         ri = call_impl(fq.get_sig_array_indexes_range, s_obj, ratio=ratio)
         rf = call_impl(fq.get_sig_freq_range, asig, ratio=ratio)
@@ -246,6 +249,18 @@ def object_case(ctx, kind, v, dt, sm, band, cls_name):
             ctx.oracle('get_sig_array_indexes_range == first and last index above max/ratio; get_sig_freq_range the frequencies there',
                        [int(ri[1][0]), int(ri[1][1])] == [idx[0], idx[-1]] and rf[0] == 'ok' and
                        [float(x) for x in rf[1]] == [float(smv[idx[0]]), float(smv[idx[-1]])], {**inputs, 'ratio': ratio})
+
+
+    # ---- object history: an explicit regeneration with another bandwidth after the spectrum has been read must take effect
+    for meth in ('generate_smooth_fa_spectrum', 'gen_smooth_fa_spectrum'):
+        band2 = rng.choice([b for b in (5, 10, 20, 40, 80, 100) if b != band])
+        getattr(asig, meth)(band=band2)
+        s2 = np.asarray(asig.smooth_fa_spectrum)
+        want2 = np.asarray(fq.calc_smooth_fa_spectrum(fa_f, fa_s, smv, band=band2))
+        ctx.hist('object-history/' + meth + '(band) after a read')
+        ctx.oracle('C07.b after ' + meth + '(band=b) the object\'s smoothed spectrum is the smoothing with bandwidth b (also when a spectrum was cached)',
+                   s2.shape == want2.shape and bool(np.all(np.abs(s2 - want2) <= 1e-12 * scale)), {**inputs, 'band2': band2},
+                   detail={'max_dev': float(np.max(np.abs(s2 - want2))) if s2.shape == want2.shape and want2.size else None})
 
 
 def borderline(s, lim_float, lim_exact):
